@@ -157,12 +157,41 @@ func (g *gen) list(safe bool, depth, lvl int, linky bool) {
 
 func (g *gen) table(safe bool) {
 	rows, cols := 1+g.r.Intn(3), 1+g.r.Intn(3)
+	// row groups: none (the parser supplies one <tbody>), the usual head-then-body, or any
+	// sequence of <thead> / <tbody> / <tfoot> sections, repeated and in any order - cells
+	// are content wherever their row group sits, and document order is source order
+	grouping := g.r.Intn(4)
+	if grouping == 3 {
+		rows += g.r.Intn(3)
+	}
+	group := func(y int) string {
+		switch grouping {
+		case 1:
+			if y == 0 {
+				return "thead"
+			}
+			return "tbody"
+		case 2, 3:
+			return sim.Pick(g.r, []string{"thead", "tbody", "tbody", "tfoot"})
+		}
+		return ""
+	}
 	g.b.WriteString("<table>")
+	open := ""
 	for y := 0; y < rows; y++ {
+		if sec := group(y); sec != open || (sec != "" && grouping == 3 && g.r.Pct(30)) {
+			if open != "" {
+				g.b.WriteString("</" + open + ">")
+			}
+			if sec != "" {
+				g.b.WriteString("<" + sec + ">")
+			}
+			open = sec
+		}
 		g.b.WriteString("<tr>")
 		for x := 0; x < cols; x++ {
 			tag := "td"
-			if y == 0 && g.r.Bool() {
+			if (y == 0 || open == "thead") && g.r.Bool() {
 				tag = "th"
 			}
 			attr := ""
@@ -175,6 +204,9 @@ func (g *gen) table(safe bool) {
 			fmt.Fprintf(&g.b, "<%s%s>%s</%s>", tag, attr, g.text(safe, false), tag)
 		}
 		g.b.WriteString("</tr>")
+	}
+	if open != "" {
+		g.b.WriteString("</" + open + ">")
 	}
 	g.b.WriteString("</table>")
 }
